@@ -2,7 +2,7 @@
 //verif:use fakes_client
 //verif:use fakes_mcp
 //verif:use streams_mcp
-//verif:bound two-goroutine workloads, each under every schedule with <= 1 (thorough 2) preemptions at synchronisation operations, under the engine's vector-clock happens-before detector (every access to a Go variable, field, map or slice element made by interpreted code is checked against the last conflicting access), each reported pair confirmed with go test -race: server: two sessions initializing concurrently; a request being served || {tool registration, SendNotification, BroadcastNotification, session termination, GET stream opening}; session objects read and written from two goroutines; Streamable client: a call || {the listening stream receiving an event, the listening stream connecting, Close, a notification-handler registration, a roots-provider change, GetSessionID / GetState}; legacy SSE client and stdio client transport: a call || {Close, notification delivery}
+//verif:bound two-goroutine workloads, each under every schedule with <= 1 (thorough 2) preemptions at synchronisation operations, under the engine's vector-clock happens-before detector (every access to a Go variable, field, map or slice element made by interpreted code is checked against the last conflicting access), each reported pair confirmed with go test -race: server: two sessions initializing concurrently; a request being served || {tool registration, SendNotification, BroadcastNotification, session termination, GET stream opening}; session objects read and written from two goroutines; a server-issued request written to a listening stream || {SendNotification, BroadcastNotification, a second server-issued request} for the same session; a listening stream ending {client gone, session deleted, replaced by a new GET} || {SendNotification, BroadcastNotification, server-issued request} to its session, the recording ResponseWriter modelling net/http's unsynchronised finishing step after the handler returns; legacy SSE server: a writer goroutine's Write stalled while the client goes away (forced order, asserted: the handler does not return while a Write is in progress); Streamable client: a call || {the listening stream receiving an event, the listening stream connecting, Close, a notification-handler registration, a roots-provider change, GetSessionID / GetState}; legacy SSE client and stdio client transport: a call || {Close, notification delivery}
 //verif:assume workloads with more than two concurrently active goroutines of the library, and the interleavings inside net/http and os/exec, are outside the bound; schedules needing more preemptions than the bound are not explored; a race the free-running go test -race run does not show is confirmed on a -race build of an instrumented copy that replays the engine's order of synchronisation operations
 package mcp
 
@@ -26,15 +26,26 @@ func c20BothN(a, b func(), budget int) {
 	}
 	done := make(chan struct{}, 2)
 	start := make(chan struct{})
+	// stagger: one side starts a little later than the other. A sleep orders nothing, so every unordered pair of
+	// accesses is still a race, but which side takes a shared lock first is then the same in the engine and in
+	// the native -race run (an access made after an unlock is only unordered with the other side's accesses if
+	// this side had the lock first).
+	stagger := vChoice("stagger", 3)
 	vSched(true, budget)
 	// both sides start from a common barrier so that they really overlap in the native -race run
 	go func() {
 		<-start
+		if stagger == 1 {
+			time.Sleep(300 * time.Microsecond)
+		}
 		a()
 		done <- struct{}{}
 	}()
 	go func() {
 		<-start
+		if stagger == 2 {
+			time.Sleep(300 * time.Microsecond)
+		}
 		b()
 		done <- struct{}{}
 	}()
@@ -107,6 +118,131 @@ func H_C20_server_request_vs_admin() {
 		}
 	})
 	vRace(false)
+	vReach("end")
+}
+
+// H_C20_server_issued_request_vs: a server-issued request written to a session's listening stream while the
+// application sends a notification or a second request to the same session.
+func H_C20_server_issued_request_vs() {
+	vRandConcrete(true)
+	srv := NewServer("srv", "1.0", WithPostSSEEnabled(false))
+	a := c11Session(srv)
+	vAssume(a != "")
+	sa := c11Open(srv, a, nil)
+	vAssume(c11Wait(sa.flushed))
+	// the requests' contexts are over already: each is registered and written, then returns without an answer
+	ctx, cancel := context.WithCancel(context.Background())
+	cancel()
+	op := vChoice("other", 3)
+	vRace(true)
+	c20Both(func() {
+		srv.httpHandler.SendRequest(ctx, a, newJSONRPCRequest(nil, MethodRootsList, nil))
+	}, func() {
+		switch op {
+		case 0:
+			srv.SendNotification(a, "n/x", map[string]interface{}{"m": "1"})
+		case 1:
+			srv.BroadcastNotification("n/x", map[string]interface{}{"m": "2"})
+		default:
+			srv.httpHandler.SendRequest(ctx, a, newJSONRPCRequest(nil, MethodRootsList, nil))
+		}
+	})
+	vRace(false)
+	vReach("end")
+}
+
+// H_C20_stream_end_vs_send: a session's listening stream ends (its client goes away, the session is deleted, or a
+// new GET replaces it) while the application sends to that session. Once the stream's handler has returned,
+// net/http finishes the response; a sender that still writes to that ResponseWriter races with it.
+func H_C20_stream_end_vs_send() {
+	vRandConcrete(true)
+	srv := NewServer("srv", "1.0", WithPostSSEEnabled(false))
+	a := c11Session(srv)
+	vAssume(a != "")
+	sa := c11Open(srv, a, nil)
+	vAssume(c11Wait(sa.flushed))
+	ctx, cancel := context.WithCancel(context.Background())
+	cancel()
+	how := vChoice("streamEnds", 3)
+	send := vChoice("send", 3)
+	vRace(true)
+	c20Both(func() {
+		switch how {
+		case 0:
+			sa.cancel()
+		case 1:
+			rec := newVerifRecorder()
+			srv.httpHandler.ServeHTTP(rec, verifRequest("DELETE", "/mcp", nil, "Mcp-Session-Id", a))
+		default:
+			sb := c11Open(srv, a, nil)
+			c11Wait(sb.flushed)
+		}
+		c11Wait(sa.done)
+	}, func() {
+		switch send {
+		case 0:
+			srv.SendNotification(a, "n/x", map[string]interface{}{"m": "1"})
+		case 1:
+			srv.BroadcastNotification("n/x", map[string]interface{}{"m": "2"})
+		default:
+			srv.httpHandler.SendRequest(ctx, a, newJSONRPCRequest(nil, MethodRootsList, nil))
+		}
+	})
+	vRace(false)
+	vReach("end")
+}
+
+// H_C20_streamable_stalled_write_vs_stream_end: the deterministic form of H_C20_stream_end_vs_send: a Write to the
+// listening stream is stalled when the client goes away or the session is deleted; the stream's handler must
+// not return while that Write is in progress.
+func H_C20_streamable_stalled_write_vs_stream_end() {
+	vRandConcrete(true)
+	srv := NewServer("srv", "1.0", WithPostSSEEnabled(false))
+	a := c11Session(srv)
+	vAssume(a != "")
+	sa := c11Open(srv, a, nil)
+	vAssume(c11Wait(sa.flushed))
+	ctx, cancel := context.WithCancel(context.Background())
+	cancel()
+	send := vChoice("send", 2)
+	how := vChoice("streamEnds", 2)
+	gate := make(chan struct{})
+	stalled := make(chan struct{}, 1)
+	first, late := true, false
+	sa.rec.onWrite = func() {
+		if !first {
+			return
+		}
+		first = false
+		stalled <- struct{}{}
+		<-gate
+		if sa.rec.finished {
+			late = true
+		}
+	}
+	go func() {
+		if send == 0 {
+			srv.SendNotification(a, "n/x", map[string]interface{}{"m": "1"})
+		} else {
+			srv.httpHandler.SendRequest(ctx, a, newJSONRPCRequest(nil, MethodRootsList, nil))
+		}
+	}()
+	vAssume(c11Wait(stalled))
+	if how == 0 {
+		sa.cancel()
+	} else {
+		go func() {
+			rec := newVerifRecorder()
+			srv.httpHandler.ServeHTTP(rec, verifRequest("DELETE", "/mcp", nil, "Mcp-Session-Id", a))
+		}()
+	}
+	returned := c11Wait(sa.done)
+	close(gate)
+	vQuiesce()
+	vAssert("no-write-in-progress-when-the-stream-handler-returns", !late)
+	if !returned {
+		vAssert("handler-returns-once-the-write-is-over", c11Wait(sa.done))
+	}
 	vReach("end")
 }
 
@@ -351,6 +487,7 @@ func c20LegacyOpen(srv *SSEServer) (*verifRecorder, context.CancelFunc, chan str
 	done := make(chan struct{})
 	go func() {
 		srv.ServeHTTP(rec, verifRequest("GET", "/sse", nil, "Accept", "text/event-stream").WithContext(ctx))
+		rec.finished = true // what net/http does next: finish the response, unsynchronised
 		close(done)
 	}()
 	vQuiesce()
@@ -407,6 +544,81 @@ func H_C20_legacy_server_request_vs() {
 	vQuiesce()
 	vRace(false)
 	cancel1()
+	vReach("end")
+}
+
+// H_C20_legacy_stream_end_vs_send: a legacy SSE session's stream ends (its client goes away) while a notification
+// or the answer to a request is on its way to that stream through the session's writer goroutines.
+func H_C20_legacy_stream_end_vs_send() {
+	srv := NewSSEServer("srv", "1.0", WithSSESessionIDGenerator(&c20Gen{}))
+	srv.keepAlive = false
+	srv.RegisterTool(NewTool("t"), func(ctx context.Context, r *CallToolRequest) (*CallToolResult, error) { return NewTextResult("ok"), nil })
+	_, cancel1, done1 := c20LegacyOpen(srv)
+	c20LegacyPost(srv, "s1", c20Init)
+	vQuiesce()
+	c20LegacyPost(srv, "s1", `{"jsonrpc":"2.0","method":"notifications/initialized"}`)
+	vQuiesce()
+	send := vChoice("send", 2)
+	vRace(true)
+	c20BothN(func() {
+		if send == 0 {
+			srv.SendNotification("s1", "n/x", map[string]interface{}{"m": "1"})
+		} else {
+			c20LegacyPost(srv, "s1", `{"jsonrpc":"2.0","id":1,"method":"tools/call","params":{"name":"t"}}`)
+		}
+	}, func() {
+		cancel1()
+		<-done1
+	}, 0)
+	vQuiesce()
+	vRace(false)
+	vReach("end")
+}
+
+// H_C20_legacy_stalled_write_vs_stream_end: one of the session's writer goroutines is inside a Write to the
+// stream (stalled by the recorder) when the client goes away. net/http finishes the response as soon as the
+// handler returns, so the handler must not return while that Write is in progress (the deterministic form of
+// the race: here the order is forced, so it is stated as an assertion).
+func H_C20_legacy_stalled_write_vs_stream_end() {
+	srv := NewSSEServer("srv", "1.0", WithSSESessionIDGenerator(&c20Gen{}))
+	srv.keepAlive = false
+	srv.RegisterTool(NewTool("t"), func(ctx context.Context, r *CallToolRequest) (*CallToolResult, error) { return NewTextResult("ok"), nil })
+	rec, cancel1, done1 := c20LegacyOpen(srv)
+	c20LegacyPost(srv, "s1", c20Init)
+	vQuiesce()
+	c20LegacyPost(srv, "s1", `{"jsonrpc":"2.0","method":"notifications/initialized"}`)
+	vQuiesce()
+	send := vChoice("send", 2)
+	gate := make(chan struct{})
+	stalled := make(chan struct{}, 1)
+	first, late := true, false
+	rec.onWrite = func() {
+		if !first {
+			return
+		}
+		first = false
+		stalled <- struct{}{}
+		<-gate
+		if rec.finished {
+			late = true
+		}
+	}
+	go func() {
+		if send == 0 {
+			srv.SendNotification("s1", "n/x", map[string]interface{}{"m": "1"})
+		} else {
+			c20LegacyPost(srv, "s1", `{"jsonrpc":"2.0","id":1,"method":"tools/call","params":{"name":"t"}}`)
+		}
+	}()
+	vAssume(c11Wait(stalled))
+	cancel1()
+	returned := c11Wait(done1)
+	close(gate)
+	vQuiesce()
+	vAssert("no-write-in-progress-when-the-stream-handler-returns", !late)
+	if !returned {
+		vAssert("handler-returns-once-the-write-is-over", c11Wait(done1))
+	}
 	vReach("end")
 }
 
